@@ -77,7 +77,17 @@ def gen_plan(seed: int, run: int, tier: str) -> dict:
             for _ in range(rng.randint(1, 3)):
                 faults.append({"client": c, "method": rng.choice(["GetTrials", "GetTrials", "GetTrials", "GetTrials", "GetTrial", "SetTrialStateValues", "CreateNewTrial"]), "nth": rng.randint(0, 6), "phase": rng.choice(["pre", "post"])})
     cfg = {"mode": "clients", "deployment": "mixed", "p_line": 0.0, "p_seam": rng.choice([0.2, 0.5, 0.8]), "pool": rng.choice([1, 2, 3]), "busy_timeout": 60.0}
-    return {"check": ID, "seed": seed, "run": run, "cfg": cfg, "clients": clients, "faults": faults, "sched": {"seed": rng.getrandbits(48)}}
+    plan = {"check": ID, "seed": seed, "run": run, "cfg": cfg, "clients": clients, "faults": faults, "sched": {"seed": rng.getrandbits(48)}}
+    _add_sql_faults(plan, rng)
+    return plan
+
+
+def _add_sql_faults(plan: dict, rng: Any) -> None:
+    """Some SELECTs of a caching client fail once (I/O error; the RDB layer has a fallback
+    path for a failing incremental trial query): the client's view must stay right."""
+    cached = [n for n, c in plan["clients"].items() if c["kind"] == "cached"]
+    if cached and rng.random() < 0.4:
+        plan["sql_faults"] = [{"client": rng.choice(cached), "nth": rng.randint(0, 40)} for _ in range(rng.randint(1, 4))]
 
 
 def _gen_scenario(seed: int, run: int, tier: str, rng: Any) -> dict:
@@ -210,7 +220,9 @@ def _gen_scenario(seed: int, run: int, tier: str, rng: Any) -> dict:
     for c_ in clients.values():
         c_["ops"].sort(key=lambda o: o.get("phase", 0))
     cfg = {"mode": "clients", "deployment": "mixed", "scenario": True, "p_line": 0.0, "p_seam": rng.choice([0.2, 0.5, 0.8]), "pool": rng.choice([1, 2, 3]), "busy_timeout": 60.0}
-    return {"check": ID, "seed": seed, "run": run, "cfg": cfg, "clients": clients, "faults": faults, "sched": {"seed": rng.getrandbits(48)}}
+    plan = {"check": ID, "seed": seed, "run": run, "cfg": cfg, "clients": clients, "faults": faults, "sched": {"seed": rng.getrandbits(48)}}
+    _add_sql_faults(plan, rng)
+    return plan
 
 
 def _gen_heartbeat_scenario(seed: int, run: int, rng: Any, kinds: list[str]) -> dict:
@@ -328,7 +340,7 @@ def _gen_threads(seed: int, run: int, tier: str, rng: Any) -> dict:
 def shrink_paths(plan: dict) -> list[tuple]:
     if plan["cfg"].get("mode") == "threads":
         return c03.shrink_paths(plan)
-    return [("clients", n, "ops") for n in plan["clients"]] + [("faults",), ("sched", "table")]
+    return [("clients", n, "ops") for n in plan["clients"]] + [("faults",), ("sched", "table")] + ([("sql_faults",)] if "sql_faults" in plan else [])
 
 
 def signature_class(sig: str) -> str:
@@ -375,6 +387,15 @@ class _Inner:
         return _CachedStorage(st) if self.cached else st
 
 
+def _read_failed_types() -> tuple:
+    from optuna.exceptions import StorageInternalError
+
+    return (net.SimRpcError, StorageInternalError)
+
+
+READ_FAILED: tuple = ()
+
+
 def _canon_list(ts: list) -> list:
     return [(t._trial_id, canon_trial(t, True)) for t in ts]
 
@@ -383,6 +404,8 @@ def _run_clients(plan: dict, sim: sched.Sim, ch: sched.Chooser, dep: deploy.Depl
     from optuna.storages import _CachedStorage
     from optuna.trial import TrialState
 
+    global READ_FAILED
+    READ_FAILED = _read_failed_types()
     cfg = plan["cfg"]
     prefix = "%s|clients|" % ID
     env = ops.Env()
@@ -436,6 +459,42 @@ def _run_clients(plan: dict, sim: sched.Sim, ch: sched.Chooser, dep: deploy.Depl
             srv.fault = fault
             servers.append(srv)
             storages[n] = srv.new_client(procs[n])
+    quiet = [0]  # > 0 while the checker's own reader is at work: no injected faults then
+
+    class _Raw:
+        """The checker's own reader, shielded from the injected faults."""
+
+        def __getattr__(self, name: str) -> Any:
+            f = getattr(raw0, name)
+            if not callable(f):
+                return f
+
+            def call(*a: Any, **k: Any) -> Any:
+                quiet[0] += 1
+                try:
+                    return f(*a, **k)
+                finally:
+                    quiet[0] -= 1
+
+            return call
+
+    raw0 = raw
+    raw = _Raw()
+    sql_faults = [dict(f) for f in plan.get("sql_faults", [])]
+    if sql_faults:
+        nsel: dict[str, int] = {}
+
+        def sql_fault(task: Any, skind: str, word: str) -> bool:
+            if task is None or skind != "sql.exec" or word != "SELECT" or quiet[0] or sim.atomic_depth:
+                return False
+            nsel[task.name] = nsel.get(task.name, 0) + 1
+            for f in sql_faults:
+                if not f.get("fired") and f["client"] == task.name and f["nth"] == nsel[task.name] - 1:
+                    f["fired"] = True
+                    return True
+            return False
+
+        dep.db.fault = sql_fault
     verdict: list[tuple[str, str]] = []
     observed_gone: set = set()  # (client, study id) for which the client itself got KeyError
     own_delete_failed: set = set()  # (client, study id): its own delete_study raised KeyError
@@ -473,7 +532,7 @@ def _run_clients(plan: dict, sim: sched.Sim, ch: sched.Chooser, dep: deploy.Depl
             gerr = None
         except KeyError as e:
             got, gerr = None, e
-        except net.SimRpcError:
+        except READ_FAILED:
             sim.count("read_failed_rpc")
             return
         if (werr is None) != (gerr is None) or (werr is None and canon_trial(got, True) != canon_trial(want, True)):
@@ -527,7 +586,7 @@ def _run_clients(plan: dict, sim: sched.Sim, ch: sched.Chooser, dep: deploy.Depl
                         return
                     observed_gone.add((name, sid))
                     continue
-                except net.SimRpcError as e:
+                except READ_FAILED as e:
                     sim.count("read_failed_rpc")
                     continue
                 if raw_err is not None:
@@ -543,7 +602,7 @@ def _run_clients(plan: dict, sim: sched.Sim, ch: sched.Chooser, dep: deploy.Depl
         for t in want_all:
             try:
                 g = st.get_trial(t._trial_id)
-            except net.SimRpcError:
+            except READ_FAILED:
                 continue
             except KeyError:
                 bad("get_trial", "client raised KeyError for trial id %d" % t._trial_id)
@@ -553,7 +612,7 @@ def _run_clients(plan: dict, sim: sched.Sim, ch: sched.Chooser, dep: deploy.Depl
                 return
             try:
                 tid = st.get_trial_id_from_study_id_trial_number(sid, t.number)
-            except net.SimRpcError:
+            except READ_FAILED:
                 continue
             except KeyError:
                 bad("number-lookup", "client raised KeyError for number %d" % t.number)
@@ -566,7 +625,7 @@ def _run_clients(plan: dict, sim: sched.Sim, ch: sched.Chooser, dep: deploy.Depl
                 bad("study-name", "differs")
             if [d.name for d in st.get_study_directions(sid)] != [d.name for d in raw.get_study_directions(sid)]:
                 bad("study-directions", "differs")
-        except net.SimRpcError:
+        except READ_FAILED:
             pass
         raw.remove_session()
 
